@@ -10,15 +10,23 @@ CONSTANTS Kinds,       \* subset of {"T2", "T1S", "T1D", "T512"}
           Pads,        \* numbers of NULL TLVs in front
           Props,       \* T1D: lengths of a proprietary TLV in front (0 = none)
           CtlFroms,    \* first addresses of reserved ranges, relative to the NDEF TLV offset
-          CtlSizes,    \* sizes (bytes) of reserved ranges
+          MemSizes,    \* memory control TLV size fields (bytes; 0 encodes 256)
+          LockBits,    \* lock control TLV size fields (lock BITS, also not multiples of 8; 0 encodes 256)
           CtlTypes,    \* subset of {1, 2}: lock control / memory control
           TwoCtl,      \* BOOLEAN: additionally a lock control TLV for two bytes right after the data area
           OldLens
 
 LenField(n) == IF n >= LongLen THEN <<255, n \div 256, n % 256>> ELSE <<n>>
-CtlTlv(c) == <<c.t, 3, (c.from \div 8) * 16 + (c.from % 8), IF c.t = 1 THEN c.n * 8 ELSE c.n, 51>>
-CtlSet(cs) == UNION {(cs[i].from) .. (cs[i].from + cs[i].n - 1) : i \in DOMAIN cs}
-LockSet(cs) == UNION {IF cs[i].t = 1 THEN (cs[i].from) .. (cs[i].from + cs[i].n - 1) ELSE {} : i \in DOMAIN cs}
+\* a control TLV descriptor c = [t, from, sz]: sz is the raw size field.  The position is encoded with one of the
+\* BytesPerPage exponents that can express `from` (chosen by from + sz, so that all encodings occur), the upper
+\* nibble of the third value byte (BytesLockedPerLockBit / RFU) takes arbitrary values.
+NBytes(c) == LET n0 == IF c.sz = 0 THEN 256 ELSE c.sz IN IF c.t = 1 THEN (n0 + 7) \div 8 ELSE n0
+Exps(from) == SelectSeq(<<2, 3, 4, 5>>, LAMBDA e : from \div Pow2(e) <= 15 /\ from % Pow2(e) <= 15)
+ExpOf(c) == LET es == Exps(c.from) IN es[((c.from + c.sz) % Len(es)) + 1]
+CtlTlv(c) == LET e == ExpOf(c) IN
+    <<c.t, 3, (c.from \div Pow2(e)) * 16 + (c.from % Pow2(e)), c.sz, ((c.from * 5 + c.sz) % 16) * 16 + e>>
+CtlSet(cs) == UNION {(cs[i].from) .. (cs[i].from + NBytes(cs[i]) - 1) : i \in DOMAIN cs}
+LockSet(cs) == UNION {IF cs[i].t = 1 THEN (cs[i].from) .. (cs[i].from + NBytes(cs[i]) - 1) ELSE {} : i \in DOMAIN cs}
 Stream(pad, prop, cs, oldn) ==
     [i \in 1..pad |-> 0] \o (IF prop > 0 THEN <<253, prop>> \o [i \in 1..prop |-> 17] ELSE <<>>)
     \o FlattenSeq([i \in DOMAIN cs |-> CtlTlv(cs[i])]) \o <<3>> \o LenField(oldn) \o OldMsg(oldn) \o <<254>>
@@ -57,10 +65,13 @@ MkT512(oldn) ==
 
 CtlChoices(ds, pad, prop, end) ==
     {<<>>} \cup
-    {<<[t |-> t, from |-> Off0(ds, pad, prop, <<1>>) + f, n |-> n]>> : t \in CtlTypes, f \in CtlFroms, n \in CtlSizes}
+    (IF 2 \in CtlTypes THEN {<<[t |-> 2, from |-> Off0(ds, pad, prop, <<1>>) + f, sz |-> n]>> : f \in CtlFroms, n \in MemSizes}
+     ELSE {})
+    \cup (IF 1 \in CtlTypes THEN {<<[t |-> 1, from |-> Off0(ds, pad, prop, <<1>>) + f, sz |-> n]>> : f \in CtlFroms, n \in LockBits}
+          ELSE {})
     \cup (IF TwoCtl THEN
-          {<<[t |-> 1, from |-> end, n |-> 2], [t |-> 2, from |-> Off0(ds, pad, prop, <<1, 2>>) + f, n |-> n]>> :
-               f \in CtlFroms, n \in CtlSizes}
+          {<<[t |-> 1, from |-> end, sz |-> 12], [t |-> 2, from |-> Off0(ds, pad, prop, <<1, 2>>) + f, sz |-> n]>> :
+               f \in CtlFroms, n \in MemSizes \ {0}}
           ELSE {})
 
 Good(L, oldn) == WellFormed(L) /\ L.old = Ndef(OldMsg(oldn))
@@ -93,6 +104,21 @@ W_SkipInside == ~(pc = "done" /\ op = "write" /\ \E a \in lay.skip : a > lay.off
 W_SkipAfter  == ~(pc = "done" /\ op = "write" /\ msg # <<>> /\ Len(msg) < LongLen
                   /\ \E a \in lay.skip : a < End(lay, mem) /\ Byte(mem, a - 1) = msg[Len(msg)])
 W_SkipBeyond == ~(pc = "done" /\ \E a \in lay.skip : a >= End(lay, mem))
+\* a lock control TLV whose bit count does not fill its last byte, that byte lying inside the written value
+W_OddLock    == ~(pc = "done" /\ op = "write" /\ Len(msg) > 2 /\
+                  \E a \in lay.skip : /\ a > lay.off + 2 /\ a < lay.off + Len(msg) /\ a + 1 \notin lay.skip
+                                       /\ \E b \in DataStart(lay) .. (lay.off - 5) :
+                                            /\ Byte(lay.mem0, b) = 1 /\ Byte(lay.mem0, b + 1) = 3
+                                            /\ Byte(lay.mem0, b + 3) % 8 # 0)
+\* a memory control TLV with size field 0 (256 bytes)
+W_Mem256     == ~(pc = "done" /\ \E b \in DataStart(lay) .. (lay.off - 5) :
+                        Byte(lay.mem0, b) = 2 /\ Byte(lay.mem0, b + 1) = 3 /\ Byte(lay.mem0, b + 3) = 0)
+\* every BytesPerPage exponent 2..4 occurs in some control TLV
+W_Exp(e)     == ~(pc = "done" /\ \E b \in DataStart(lay) .. (lay.off - 5) :
+                        Byte(lay.mem0, b) \in {1, 2} /\ Byte(lay.mem0, b + 1) = 3 /\ Byte(lay.mem0, b + 4) % 16 = e)
+W_Exp2 == W_Exp(2)
+W_Exp3 == W_Exp(3)
+W_Exp4 == W_Exp(4)
 W_FormatWipe == ~(pc = "done" /\ op = "format" /\ msg[1] < 256)
 W_Escape     == Confined
 W_NLayouts   == Cardinality(Layouts) < 0
